@@ -15,6 +15,8 @@ Record bcase := {
   bc_ir : list (N * iseq);                  (* observed: reachable sequences by arena index *)
   bc_log : list ev;                         (* observed: dfs_in_order with default per-variant hooks *)
   bc_mlog : list ev;                        (* observed: dfs_pre_order_mut with default per-variant hooks *)
+  bc_log_ov : list ev;                      (* observed: dfs_in_order, visitor overriding EVERY per-variant hook (payloads of EInstr/EHook not recorded) *)
+  bc_mlog_ov : list ev;                     (* observed: dfs_pre_order_mut, likewise *)
   bc_id2i : list (space * list (N * N));    (* emit-time: per space, id -> index *)
   bc_args : list N;
   bc_local_tys : list (N * valty);
@@ -65,6 +67,8 @@ Fixpoint codes_eqb (a b : list (list N)) : bool :=
   | _, _ => false
   end.
 Definition not_hook (e : ev) : bool := match e with EHook _ => false | _ => true end.
+(* for the hook-overriding recorders: instruction payloads are not recorded *)
+Definition ev_code_ov (e : ev) : list N := match e with EInstr _ _ => [2] | EHook _ => [3] | _ => ev_code e end.
 
 Definition local_ty_of (m : list (N * valty)) (id : N) : valty :=
   match find (fun p => N.eqb (fst p) id) m with Some p => snd p | None => VT_I32 end.
@@ -85,6 +89,8 @@ Definition check_body (c : bcase) : N :=
           match dfs_pre_order_mut false fuel ar 0 with
           | Ok mevs =>
               if negb (codes_eqb (map ev_code (filter not_hook mevs)) (map ev_code (bc_mlog c))) then 3
+              else if negb (match dfs_in_order true fuel ar 0 with Ok e2 => codes_eqb (map ev_code_ov e2) (map ev_code_ov (bc_log_ov c)) | _ => false end) then 6
+              else if negb (match dfs_pre_order_mut true fuel ar 0 with Ok e2 => codes_eqb (map ev_code_ov e2) (map ev_code_ov (bc_mlog_ov c)) | _ => false end) then 7
               else
               let '(decls, lmap) := emit_locals (local_ty_of (bc_local_tys c)) (bc_args c) (used_of_log evs) in
               if negb (codes_eqb (map (fun d => [fst d; valty_code (snd d)]) decls)
